@@ -97,6 +97,44 @@ func init() {
 		}
 		return TupleV{SliceV{}, e.newError("open: no such file or directory")}
 	}
+	stubs["os.Open"] = func(e *Exec, fr *Frame, fn *ssa.Function, a []Value) Value {
+		d, _ := e.pathAux["dir"].(*dirObj)
+		path := a[0].(StrV)
+		if d != nil {
+			for _, en := range d.ents {
+				full := strConcat(e.tf, chStr(e.tf, d.base+"/"), en.name)
+				if e.decide(strEq(e.tf, path, full)) {
+					o := e.newObj(StructV{}, nil)
+					o.Aux = en
+					return TupleV{Ptr{Obj: o}, IfaceV{}}
+				}
+			}
+		}
+		return TupleV{Ptr{}, e.newError("open: no such file or directory")}
+	}
+	stubs["(*os.File).Close"] = func(e *Exec, fr *Frame, fn *ssa.Function, a []Value) Value { return IfaceV{} }
+	stubs["(*bytes.Buffer).ReadFrom"] = func(e *Exec, fr *Frame, fn *ssa.Function, a []Value) Value {
+		bp := a[0].(Ptr)
+		src := a[1].(IfaceV)
+		fp, ok := src.V.(Ptr)
+		if !ok || fp.Obj == nil {
+			e.unsupported("bytes.Buffer.ReadFrom of an unknown reader")
+		}
+		en, ok := fp.Obj.Aux.(*dirEnt)
+		if !ok {
+			e.unsupported("bytes.Buffer.ReadFrom of a reader not produced by the harness")
+		}
+		switch en.kind {
+		case 1:
+			return TupleV{e.tf.Int(0), e.newError("read: is a directory")}
+		case 3:
+			return TupleV{e.tf.Int(0), IfaceV{}}
+		}
+		c := chunk{blob: &protoBlob{msg: en.msg, bad: en.kind == 2}}
+		e.writes++
+		e.pathAux[e.bufKey(bp)] = append(append([]chunk{}, e.bufGet(bp)...), c)
+		return TupleV{e.tf.Int(1), IfaceV{}}
+	}
 	stubs["time.Now"] = func(e *Exec, fr *Frame, fn *ssa.Function, a []Value) Value {
 		e.pathAuxInc("clock")
 		lo, hi := typeRange(63, false)
